@@ -663,6 +663,85 @@ pipeline P(
 
 call P()
 `,
+	`
+stage S(
+    in  map<int> m,
+    out int      x,
+    src comp     "s",
+)
+
+pipeline P(
+    out int o,
+)
+{
+    call S(
+        m = {
+            "a": S.x,
+            "b": S.x,
+            "c": S.x,
+        },
+    )
+
+    return (
+        o = S.x,
+    )
+}
+
+call P()
+`,
+	`
+stage F(
+    out bool flag,
+    src comp "f",
+)
+
+stage W(
+    in  bool d,
+    in  int  x,
+    out int  y,
+    src comp "w",
+)
+
+pipeline INNER(
+    in  bool d,
+    in  int  x,
+    out int  y,
+)
+{
+    call W(
+        d = self.d,
+        x = self.x,
+    ) using (
+        disabled = self.d,
+    )
+
+    return (
+        y = W.y,
+    )
+}
+
+pipeline P(
+    out map<int> ys,
+)
+{
+    call F as F1()
+    call F as F2()
+
+    map call INNER(
+        d = split {
+            "a": 1,
+            "b": 2,
+        },
+        x = 3,
+    )
+
+    return (
+        ys = INNER.y,
+    )
+}
+
+call P()
+`,
 }
 
 // selfCompile compiles one program and renders everything computed.
